@@ -428,6 +428,6 @@ func runC16(args []string) error {
 }
 
 func validName(name string) bool { return name != "" && !bytes.ContainsRune([]byte(name), '/') }
-func errInvalidName() error       { return serrors.ErrInvalidTableName }
+func errInvalidName() error      { return serrors.ErrInvalidTableName }
 
 var _ = io.EOF
